@@ -357,7 +357,7 @@ class Executor:
                 if o.kind == "dict":
                     if o.d is not None:
                         return VInt(len(o.d))
-                    return VInt(o.fields["__len__"].t)
+                    return VInt(self.sym_dict_len(state, o))
                 if o.kind in ("barray", "alist"):
                     return VInt(o.n)
             if isinstance(a, VDyn):
@@ -368,6 +368,21 @@ class Executor:
                 return VInt(t)
             self.raise_if(state, z3.BoolVal(True), "TypeError")
         return self.dist(state, [v], f)
+
+    def sym_dict_len(self, state, o):
+        """len() of a symbolic table: a natural number that is 0 exactly when no key is present (cached per version
+        of the key set)"""
+        key = o.sym["has"].get_id()
+        cached = getattr(o, "len_cache", None)
+        if cached is not None and cached[0] == key:
+            return cached[1]
+        n = z3.Int(fresh_name("dict_len"))
+        k = z3.Const(fresh_name("lk"), o.sym["has"].sort().domain())
+        state.assume(n >= 0)
+        state.assume(z3.ForAll([k], z3.Implies(z3.Select(o.sym["has"], k), n > 0), patterns=[z3.Select(o.sym["has"], k)]))
+        state.assume(z3.Implies(n > 0, z3.Exists([k], z3.Select(o.sym["has"], k))))
+        o.len_cache = (key, n)
+        return n
 
     # ------------------------------------------------------------------ statements
     def exec_block(self, state, stmts):
@@ -1176,9 +1191,18 @@ class Executor:
 
     def set_item(self, state, obj, key, v):
         from . import ops
-        # writes through unions of containers are guarded
         if isinstance(obj, VUnion) or isinstance(key, VUnion):
-            raise Unsupported("subscript store through union")
+            # guarded store: each (container, key) alternative is written under its guard
+            import itertools as _it
+            for (g1, o_), (g2, k_) in _it.product(alts_of(obj), alts_of(key)):
+                g = simp(z3.And(g1, g2))
+                if is_false(g):
+                    continue
+                if isinstance(o_, VNoneT) or isinstance(k_, VNoneT):
+                    self.raise_if(state, g, "TypeError")
+                    continue
+                ops.set_item_guarded(self, state, o_, k_, v, g)
+            return
         ops.set_item(self, state, obj, key, v)
 
     def del_item(self, state, obj, key):
